@@ -14,7 +14,8 @@
                                          still holds and no other handle's attempt is granted at the end: however long a
                                          blocked acquirer polls, it never reports success while the holder is live
 
-   The statements in Props/C19.v are over the REGENERATED discipline gen_lock_disc (Gen/GenFileLock.v). *)
+   These are per-state lemmas from `inv`; Proofs/ProcForkProofs.v lifts them to every schedule of the machine with
+   whole-process forks (Model/ProcFork.v), over the REGENERATED discipline gen_lock_disc (Gen/GenFileLock.v). *)
 From Coq Require Import List Bool Arith Lia.
 Require Import DS.Model.ProcLockBase DS.Gen.GenFileLock DS.Model.ProcLock DS.Model.ProcLockKeep DS.Proofs.ProcLockProofs.
 Import ListNotations.
@@ -150,66 +151,10 @@ Qed.
 
 End Topology.
 
-(* ---- over the regenerated discipline, from the initial state *)
-Lemma gen_lock_death_frees : forall (proc : hid -> pid) evs h, forks_quiescent gen_lock_disc proc linit evs ->
-  let s := lrun gen_lock_disc proc linit evs in
-  lholds s h ->
-  exists s', lstep gen_lock_disc proc s (LKill (proc h)) = Some s' /\ lock_view s' = None /\ (forall k, ~ lholds s' k)
-    /\ (forall w, l_h s w = HIdle -> proc w <> proc h ->
-          exists s'', lrun_strict gen_lock_disc proc s' (map (LStep w) attempt_granted_events) 0 = inl s''
-                      /\ lholds s'' w /\ lock_view s'' = Some w /\ (forall k, lholds s'' k -> k = w)).
-Proof.
-  intros proc evs h. rewrite gen_disc_is_by_description. intros Q s Hh.
-  pose proof (reach_inv proc evs Q) as I. fold s in I.
-  destruct (kill_frees proc s h I Hh) as [s' [E [_ [V Nh]]]].
-  exists s'. split; [exact E|]. split; [exact V|]. split; [exact Nh|].
-  intros w Hw Np. destruct (kill_then_granted proc s h w I Hh Hw Np) as [s1 [s'' [E1 R]]].
-  rewrite E in E1. inversion E1; subst s1. exists s''. exact R.
-Qed.
-
-Lemma gen_lock_granted_only_when_free : forall (proc : hid -> pid) evs h s', forks_quiescent gen_lock_disc proc linit evs ->
-  let s := lrun gen_lock_disc proc linit evs in
-  lstep gen_lock_disc proc s (LStep h (KTry true)) = Some s' ->
-  (forall k, ~ lholds s k) /\ lholds s' h /\ (forall k, lholds s' k -> k = h).
-Proof.
-  intros proc evs h s'. rewrite gen_disc_is_by_description. intros Q s E.
-  apply (granted_only_when_free proc s h s'); [apply reach_inv; exact Q | exact E].
-Qed.
-
-Lemma gen_lock_blocked_never_succeeds : forall (proc : hid -> pid) evs evs2 k h,
-  forks_quiescent gen_lock_disc proc linit (evs ++ evs2) ->
-  lholds (lrun gen_lock_disc proc linit evs) k ->
-  Forall (fun e => ~ ends_holding proc k e) evs2 -> h <> k ->
-  let s := lrun gen_lock_disc proc linit (evs ++ evs2) in
-  lholds s k /\ ~ lholds s h /\ lstep gen_lock_disc proc s (LStep h (KTry true)) = None
-  /\ (forall d, l_h s h = HOpened d ->
-        exists s', lstep gen_lock_disc proc s (LStep h (KTry false)) = Some s' /\ lholds s' k /\ l_h s' h = HRefused d).
-Proof.
-  intros proc evs evs2 k h. rewrite gen_disc_is_by_description. intros Q Hk F N s.
-  pose proof (reach_inv proc (evs ++ evs2) Q) as I. fold s in I.
-  assert (Hk' : lholds s k).
-  { unfold s. rewrite lrun_app.
-    assert (Q1 : forks_quiescent ByDescription proc linit evs /\
-                 forks_quiescent ByDescription proc (lrun ByDescription proc linit evs) evs2).
-    { clear -Q. revert Q. generalize linit as s0. induction evs as [|e evs IH]; intros s0 Q; simpl in *; [split; [exact Logic.I | exact Q]|].
-      destruct Q as [Qe Q]. destruct (IH _ Q) as [A B]. split; [split; assumption | exact B]. }
-    destruct Q1 as [Q1 Q2].
-    apply (holder_persists proc evs2 (lrun ByDescription proc linit evs) k); [apply reach_inv; exact Q1 | exact Hk | exact Q2 | exact F]. }
-  split; [exact Hk'|].
-  assert (Nkh : k <> h) by (intro Eq; apply N; symmetry; exact Eq).
-  split; [intro Hh; apply N; apply (inv_exclusive s h k I Hh Hk')|].
-  split; [apply (refused_while_held proc s h k 0 I Hk' Nkh)|].
-  intros d Ho. apply (refused_while_held proc s h k d I Hk' Nkh). exact Ho.
-Qed.
-
-Lemma gen_lock_mutex_and_flag : forall (proc : hid -> pid) evs,
-  forks_quiescent gen_lock_disc proc linit evs ->
-  let s := lrun gen_lock_disc proc linit evs in
-  (forall h1 h2, lholds s h1 -> lholds s h2 -> h1 = h2) /\ (forall h, lholds s h <-> lock_view s = Some h).
-Proof.
-  intros proc evs Q s. split; [intros h1 h2; exact (gen_lock_exclusive proc evs h1 h2 Q)
-                              | intro h; exact (gen_lock_flag_is_view proc evs h Q)].
-Qed.
+(* The statements over the regenerated discipline from the initial state live in Proofs/ProcForkProofs.v: they are
+   over the machine of Model/ProcFork.v, whose fork copies the WHOLE descriptor table of the forking process (the
+   single-handle `LFork` of Model/ProcLock.v let a process fork "only its idle handle" while another of its handles
+   held, which no kernel does). *)
 
 (* ---- the handle program FileLock does NOT perform (Model/ProcLockKeep.v): refutation witnesses *)
 Lemma kept_descriptor_refuted :
